@@ -270,6 +270,7 @@ void vf_run_case(Ctx& c, uint64_t index) {
   int done = 0;
   for (; done < steps; done++) {
     Op o = gen_op(r, ho, run.m);
+    adapt_op(o);
     c.outcome(std::string("op:") + opk_name(o.k));
     if (!run.step(o)) break;
   }
